@@ -10,6 +10,7 @@
 mod arena;
 mod c08;
 mod c17;
+mod c18i;
 mod c18m;
 mod c18p;
 mod hidden;
@@ -56,6 +57,10 @@ fn main() {
             let s = c17::run(seed, args.usize("histories", 2000), workers, !args.flag("no-faults"), args.str("types"));
             report::write_out(out, &s.to_json("C17", seed));
         }
+        "c18i" => {
+            let s = c18i::run(seed, args.usize("samples", 200), workers);
+            report::write_out(out, &s.to_json("C18", seed));
+        }
         "c18p" => {
             let s = c18p::run(seed, args.usize("samples", 32), workers);
             report::write_out(out, &s.to_json("C18", seed));
@@ -91,6 +96,7 @@ fn main() {
                 }
                 "C17" => c17::replay(&j),
                 "C18" if j["part"].as_str() == Some("P") => c18p::replay(&j),
+                "C18" if j["part"].as_str() == Some("I") => c18i::replay(&j),
                 "C18" if j["part"].as_str() == Some("M") => {
                     arena::install_crash_monitor();
                     c18m::replay(&j)
